@@ -47,7 +47,7 @@ def _solve(job):
                     model = {str(d): str(m[d]) for d in m.decls() if d.arity() == 0}
                 break
             reason = s.reason_unknown()
-            if rlimit <= 6_000_000:
+            if rlimit <= 25_000_000:
                 break  # cheap checks (canaries, literally-false goals) are not retried
         return key, res, time.time() - t0, model, reason
     except Exception as e:  # solver crash: undecided, never a violation by itself
@@ -82,7 +82,7 @@ def discharge(obligs, rlimit=None, want_model=True):
         h = hashlib.sha1(t.encode()).hexdigest()
         uniq.setdefault(h, t)
         # a goal that is literally False can only be discharged by refuting the path: give it a small budget
-        lim[h] = min(rlimit, 6_000_000) if _z3.is_false(o.goal) else rlimit
+        lim[h] = min(rlimit, 25_000_000) if (_z3.is_false(o.goal) and o.kind in ("canary", "frame")) else rlimit
     jobs = [(h, t, lim[h], want_model) for h, t in uniq.items()]
     results = {}
     for k, r, dt, m, why in pool().imap_unordered(_solve, jobs, chunksize=1):
